@@ -10,4 +10,9 @@ git -C /repo worktree add --detach "$base/repo" HEAD >/dev/null 2>&1
 rsync -a --exclude .git --exclude .build --exclude 'harness/target' /verif/ "$base/verif/"
 sed -i "s#path = \"/repo\"#path = \"$base/repo\"#" "$base/verif/harness/Cargo.toml"
 cp "$base/repo/Cargo.lock" "$base/verif/harness/Cargo.lock"
+# start from the dependency artefacts already built for /verif (the workspace's own crates get rebuilt)
+if [ -d /verif/.build ] && [ ! -d "$base/verif/.build" ]; then
+  mkdir -p "$base/verif/.build"
+  for d in native asan miri; do [ -d /verif/.build/$d ] && cp -a /verif/.build/$d "$base/verif/.build/$d"; done
+fi
 echo "$base"
